@@ -110,7 +110,9 @@ static void enc(FILE *fp, const char *s) { enc_n(fp, s, s ? strlen(s) : 0); }
 /* schemas                                                             */
 
 #define MAXSCHEMA 128
-struct simple_slot { cfg_type_t type; cfg_value_t v; struct simple_slot *next; };
+/* the caller's variable behind a 'simple' option: a heap block of exactly the size of the C type the CFG_SIMPLE_* macro takes
+ * (long, double, cfg_bool_t, char *), so that a store through a wider member shows under ASan */
+struct simple_slot { cfg_type_t type; void *mem; size_t size; struct simple_slot *next; };
 struct schema {
 	char id[24];
 	cfg_opt_t *opts;
@@ -219,7 +221,10 @@ static cfg_opt_t *build_opts(struct schema *sch, char **toks, int ntok, int *pos
 			sl->type = o.type;
 			sl->next = sch->slots;
 			sch->slots = sl;
-			o.simple_value.ptr = (void **)&sl->v;
+			sl->size = o.type == CFGT_INT ? sizeof(long) : o.type == CFGT_FLOAT ? sizeof(double) : o.type == CFGT_BOOL ? sizeof(cfg_bool_t) : sizeof(char *);
+			sl->mem = xmalloc(sl->size);
+			memset(sl->mem, 0, sl->size);
+			o.simple_value.ptr = (void **)sl->mem;
 		}
 		if (*pos < ntok && !strcmp(toks[*pos], "{")) {
 			(*pos)++;
@@ -292,9 +297,9 @@ static void reset_slots(struct schema *s)
 {
 	struct simple_slot *sl;
 	for (sl = s->slots; sl; sl = sl->next) {
-		if (sl->type == CFGT_STR && sl->v.string)
-			vf_free(sl->v.string, "cfgdrv.c", "reset_slots", 0);
-		memset(&sl->v, 0, sizeof sl->v);
+		if (sl->type == CFGT_STR && *(char **)sl->mem)
+			vf_free(*(char **)sl->mem, "cfgdrv.c", "reset_slots", 0);
+		memset(sl->mem, 0, sl->size);
 	}
 }
 
@@ -308,7 +313,7 @@ static void cmd_schema(char **toks, int ntok)
 		struct simple_slot *sl, *nx;
 		if (!s->freed) free_opts_plain(s->opts);
 		reset_slots(s);
-		for (sl = s->slots; sl; sl = nx) { nx = sl->next; free(sl); }
+		for (sl = s->slots; sl; sl = nx) { nx = sl->next; free(sl->mem); free(sl); }
 	} else {
 		if (nschemas >= MAXSCHEMA) die("too many schemas");
 		s = &schemas[nschemas++];
@@ -480,7 +485,14 @@ static int cb_parse(cfg_t *cfg, cfg_opt_t *opt, const char *value, void *result)
 	}
 	if (fail) return 1;
 	switch (opt->type) {
-	case CFGT_INT: *(long *)result = (long)strlen(value ? value : "") * 1000 + (value && value[0] ? (unsigned char)value[0] : 0); break;
+	case CFGT_INT:
+		/* what a callback produces is the value: any long */
+		if (value && !strcmp(value, "BIG")) { *(long *)result = 3232235521L; break; }
+		if (value && !strcmp(value, "I31")) { *(long *)result = 2147483648L; break; }
+		if (value && !strcmp(value, "U32")) { *(long *)result = 4294967295L; break; }
+		if (value && !strcmp(value, "NEG")) { *(long *)result = -5L; break; }
+		if (value && !strcmp(value, "HUGE")) { *(long *)result = (1L << 40) + 7; break; }
+		*(long *)result = (long)strlen(value ? value : "") * 1000 + (value && value[0] ? (unsigned char)value[0] : 0); break;
 	case CFGT_FLOAT:
 		/* what a callback produces is the value, also when it is not a finite number */
 		if (value && !strcmp(value, "INF")) { *(double *)result = HUGE_VAL; break; }
